@@ -41,6 +41,23 @@ AccVector(i, v) ==
           /\ bag' = [bag EXCEPT ![i] = Append(bag[i], v)] /\ err' = ""
   /\ nops' = nops + 1 /\ lastOp' = [op |-> "acc", ow |-> FALSE] /\ UNCHANGED <<fs, lastSaved, base>>
 
+\* --- which feature vectors a tensor holds: the coefficients run along axis `a` (1-based position), every
+\* combination of the other indices is one vector.  flat: row-major contents, sh: shape.
+RECURSIVE Prod(_, _)
+Prod(sh, from) == IF from > Len(sh) THEN 1 ELSE sh[from] * Prod(sh, from + 1)
+Unflat(flat, sh) == [d \in 1..Len(sh) |-> (flat \div Prod(sh, d + 1)) % sh[d]]
+RECURSIVE FlatFrom(_, _, _)
+FlatFrom(idx, sh, d) == IF d > Len(sh) THEN 0 ELSE idx[d] * Prod(sh, d + 1) + FlatFrom(idx, sh, d + 1)
+Others(sh, a) == [d \in 1..(Len(sh) - 1) |-> IF d < a THEN sh[d] ELSE sh[d + 1]]
+VecAt(flat, sh, a, k) ==
+  LET o == Unflat(k, Others(sh, a))
+  IN [j \in 1..sh[a] |-> flat[FlatFrom([d \in 1..Len(sh) |-> IF d < a THEN o[d] ELSE IF d = a THEN j - 1 ELSE o[d - 1]], sh, 1) + 1]]
+VectorsOf(flat, sh, a) == [k \in 1..Prod(Others(sh, a), 1) |-> VecAt(flat, sh, a, k - 1)]
+\* sanity: a (2, 3) matrix along its last axis is its rows; along its first axis, its columns
+ASSUME VectorsOf(<<1, 2, 3, 4, 5, 6>>, <<2, 3>>, 2) = << <<1, 2, 3>>, <<4, 5, 6>> >>
+ASSUME VectorsOf(<<1, 2, 3, 4, 5, 6>>, <<2, 3>>, 1) = << <<1, 4>>, <<2, 5>>, <<3, 6>> >>
+ASSUME VectorsOf(<<1, 2, 3, 4, 5, 6, 7, 8>>, <<2, 2, 2>>, 2) = << <<1, 3>>, <<2, 4>>, <<5, 7>>, <<6, 8>> >>
+
 \* a tensor of several vectors (all of one dimension) in one accumulate call
 AccTensor(i, vs) ==
   /\ nops < MaxOps /\ vs # <<>>
